@@ -137,8 +137,9 @@ def collapse_diff(prog, rng, wd):
 
 
 def canon_trace(lines):
-    """What must not depend on the optimisation level: the hook calls in order (their names), the
-    result codes in order, and the final dump (intermediate dumps may lag by one step)."""
+    """What must not depend on the optimisation level: the hook calls and yields in order — up to
+    the one step of lag the certificate allows at the point where the input stops — and, once the
+    program has finished (DONE / finish code), the final dump.  -> (events, terminal code, final dump)"""
     out = []
     for l in lines:
         head = l.split(" | ")[0].split()
@@ -147,12 +148,22 @@ def canon_trace(lines):
         if head[0] == "hook":
             out.append("hook " + head[1])
         elif head[0] in ("feed", "end", "start"):
-            out.append(" ".join(head[:2]))
-            if head[1] in ("DONE", "FAIL") or head[1].startswith("FINISH_"):
+            if head[1].startswith("YIELD_"):
+                out.append(head[1])
+            elif head[1] in ("DONE", "FAIL") or head[1].startswith("FINISH_"):
                 # calls after a terminal result are only specified for FAIL (C10): stop here
-                return out, l.split(" | ")[-1]
-    final = lines[-1].split(" | ")[-1] if lines else ""
-    return out, final
+                return out, head[1], (l.split(" | ")[-1] if head[1] != "FAIL" else "")
+    return out, None, ""
+
+
+def traces_agree(a, b):
+    ea, ta, fa = a
+    eb, tb, fb = b
+    if ta is not None and tb is not None:
+        return ea == eb and ta == tb and fa == fb
+    # at least one side is still waiting for input: the shorter event list is a prefix, at most a step behind
+    short, long_ = (ea, eb) if len(ea) <= len(eb) else (eb, ea)
+    return long_[:len(short)] == short and len(long_) - len(short) <= 2
 
 
 def level_diff(prog, rng, wd):
@@ -174,7 +185,8 @@ def level_diff(prog, rng, wd):
     datas = [inputs.random_walk(dfa, rng, rng.randint(1, 24), p_follow=0.93) for _ in range(10)] + inputs.extra(prog)
     n = 0
     for d in datas:
-        ops = ["start", "feedy:" + d.hex()] + (["end"] if prog["feats"].get("eof") else [])
+        # (no end() for parsers that yield: a yield pending at end-of-input needs the re-invocation protocol)
+        ops = ["start", "feedy:" + d.hex()] + (["end"] if prog["feats"].get("eof") and "-fyield-support" not in prog["args"] else [])
         ref = None
         for v, b in bins:
             lines, status, err = b.run(ops)
@@ -182,10 +194,22 @@ def level_diff(prog, rng, wd):
             key = (canon_trace(lines), status)
             if ref is None:
                 ref = (key, v, lines)
-            elif key != ref[0]:
+            elif key[1] != ref[0][1] or not traces_agree(key[0], ref[0][0]):
                 return {"mismatch": True, "input": d.hex(), "variant_a": ref[1], "variant_b": v,
                         "trace_a": ref[2][-6:], "trace_b": lines[-6:]}
     return {"runs": n}
+
+
+def binary_stage(job):
+    prog, seed, wd = job
+    rng = random.Random(f"{seed}/{prog['name']}/c05bin")
+    mywd = os.path.join(wd, "bin-" + str(os.getpid()))
+    try:
+        return prog, level_diff(prog, rng, mywd), collapse_diff(prog, rng, mywd)
+    except Exception as e:
+        return prog, None, None
+    finally:
+        shutil.rmtree(mywd, ignore_errors=True)
 
 
 def confirm_on_c(prog, argsA, argsB, word, wd):
@@ -277,29 +301,28 @@ def main():
         rng = random.Random(ck.seed)
         accepted = [byname[r["name"]] for r in results if r["status"] == "ok"]
         rng.shuffle(accepted)
-        # (boundary and corpus programs first: they carry directed inputs)
-        accepted.sort(key=lambda p: 0 if p.get("origin") in ("boundary", "corpus") else 1)
-        ncol = 30 if ck.tier == "quick" else 150
+        # (programs that carry directed inputs first, then corpus, then generated)
+        accepted.sort(key=lambda p: 0 if p.get("inputs") else (1 if p.get("origin") == "corpus" else 2))
+        ncol = 70 if ck.tier == "quick" else 400
         col_runs = 0
         lvl_runs = 0
-        for prog in accepted[:ncol]:
-            d = level_diff(prog, rng, wd)
-            if d is not None:
-                if d.get("mismatch") or d.get("build_error"):
+        with mp.Pool(min(14, os.cpu_count() or 4)) as pool:
+            bres = pool.map(binary_stage, [(p, ck.seed, wd) for p in accepted[:ncol]], chunksize=1)
+        for prog, dl, dc in bres:
+            if dl is not None:
+                if dl.get("mismatch") or dl.get("build_error"):
                     ck.report(f"{population.src_hash(prog['src'])}/levels",
                               f"binaries of {prog['name']} built at different optimisation levels disagree",
-                              {"program": prog["src"], "args": prog["args"], **d})
+                              {"program": prog["src"], "args": prog["args"], **dl})
                 else:
-                    lvl_runs += d["runs"]
-            d = collapse_diff(prog, rng, wd)
-            if d is None:
-                continue
-            if d.get("mismatch") or d.get("build_error"):
-                ck.report(f"{population.src_hash(prog['src'])}/collapse",
-                          f"binaries of {prog['name']} built with different collapsed-range settings disagree",
-                          {"program": prog["src"], "args": prog["args"], **d})
-            else:
-                col_runs += d["runs"]
+                    lvl_runs += dl["runs"]
+            if dc is not None:
+                if dc.get("mismatch") or dc.get("build_error"):
+                    ck.report(f"{population.src_hash(prog['src'])}/collapse",
+                              f"binaries of {prog['name']} built with different collapsed-range settings disagree",
+                              {"program": prog["src"], "args": prog["args"], **dc})
+                else:
+                    col_runs += dc["runs"]
         stats["collapse_binary_runs"] = col_runs
         stats["level_binary_runs"] = lvl_runs
     finally:
